@@ -56,7 +56,8 @@ REQUIRED_PROBES = {
     "C15": ["build:faceLocations:", "build:harmonicMean:", "build:convectionTVDupwindRHSTerm:",
             "build:tvdMean:", "rebuild:", "scribble:t", "scribble:f"],
     "C03": ["i4:flags:Grid3D:--P", "i4:flags:SphericalGrid3D:--P", "i4:flags:CylindricalGrid3D:-P-",
-            "i4:flags:PolarGrid2D:-P", "i4:flags:Grid1D:P", "util:fixedGradient-scale_coeffs"],
+            "i4:flags:PolarGrid2D:-P", "i4:flags:Grid1D:P", "util:fixedGradient-scale_coeffs",
+            "edit:scale3:negative"],
     "C04": ["solve:term-format-csc", "term-reused-3+-solves", "solve:shared-bc-dirty"],
     "C12": ["fixedpoint:alpha-field", "fixedpoint:alpha-scalar", "transient:alpha-field",
             "limit:dt-inf", "limit:dt-zero", "explicit-result-fed-to-implicit"],
